@@ -174,8 +174,8 @@ theorem imperative_agrees (n : Str) (hn : n ≠ []) :
     simp only [hv, hne, ne_eq, not_false_eq_true, if_true]
     exact rfl
 
-theorem loaderName_agrees (w : World) (o : PO) :
-    Agrees (Spec.decide (sourcesOf w o)) (loaderName w o.env (cliName w o)) := by
+theorem loaderName_agrees {files : List (List (Option Str))} (w : World) (o : PO) :
+    Agrees (Spec.decide (sourcesOf w o files)) (loaderName files o.env (cliName w o)) := by
   unfold Spec.decide sourcesOf cliName loaderName
   by_cases hname : o.name = []
   · simp only [hname, ne_eq, not_true_eq_false, if_false]
@@ -184,7 +184,7 @@ theorem loaderName_agrees (w : World) (o : PO) :
       by_cases hn : n = []
       · subst hn
         simp only [Option.filter, ne_eq, not_true_eq_false, decide_false, if_false, lastName_selected]
-        cases hs : Template.subst o.env.get (selectedName w.files) with
+        cases hs : Template.subst o.env.get (selectedName files) with
         | ok s =>
           by_cases h1 : normalize s = []
           · by_cases h2 : normalize (projDir w o) = []
@@ -197,7 +197,7 @@ theorem loaderName_agrees (w : World) (o : PO) :
         exact imperative_agrees n hn
     | none =>
       simp only [Option.filter, lastName_selected]
-      cases hs : Template.subst o.env.get (selectedName w.files) with
+      cases hs : Template.subst o.env.get (selectedName files) with
       | ok s =>
         by_cases h1 : normalize s = []
         · by_cases h2 : normalize (projDir w o) = []
@@ -210,12 +210,12 @@ theorem loaderName_agrees (w : World) (o : PO) :
     exact imperative_agrees o.name hname
 
 
-theorem load_ok_inv (w : World) (o : PO) (r : Loaded) (h : load w o = .ok r) :
-    loaderName w o.env (cliName w o) = .ok r.name ∧ r.name ≠ [] ∧
+theorem load_ok_inv {files : List (List (Option Str))} (w : World) (o : PO) (r : Loaded) (h : loadFiles w o files = .ok r) :
+    loaderName files o.env (cliName w o) = .ok r.name ∧ r.name ≠ [] ∧
     r.env = (cpn, r.name) :: o.env ∧
-    interpAll r.env (allNames w) = .ok () ∧
+    interpAll r.env (allNames files) = .ok () ∧
     Template.subst r.env.get w.probe = .ok r.probe := by
-  unfold load at h
+  unfold loadFiles at h
   split at h
   · cases h
   · rename_i name hname
@@ -233,12 +233,12 @@ theorem load_ok_inv (w : World) (o : PO) (r : Loaded) (h : load w o = .ok r) :
           cases h
           exact ⟨hname, hne, rfl, by cases u; exact hint, hp⟩
 
-theorem load_ok_intro (w : World) (o : PO) (n p : Str)
-    (h1 : loaderName w o.env (cliName w o) = .ok n) (h2 : n ≠ [])
-    (h3 : interpAll ((cpn, n) :: o.env) (allNames w) = .ok ())
+theorem load_ok_intro {files : List (List (Option Str))} (w : World) (o : PO) (n p : Str)
+    (h1 : loaderName files o.env (cliName w o) = .ok n) (h2 : n ≠ [])
+    (h3 : interpAll ((cpn, n) :: o.env) (allNames files) = .ok ())
     (h4 : Template.subst (Env.get ((cpn, n) :: o.env)) w.probe = .ok p) :
-    load w o = .ok { name := n, env := (cpn, n) :: o.env, probe := p } := by
-  unfold load
+    loadFiles w o files = .ok { name := n, env := (cpn, n) :: o.env, probe := p } := by
+  unfold loadFiles
   simp only [h1, h3, h4, h2, if_false]
 
 
@@ -303,6 +303,24 @@ def underOf (w : World) : List Opt → PO → Env
     | .ok o' => underStep w o x ++ underOf w xs o'
     | .error _ => []
 
+theorem withConfigFileEnv_frame (w : World) (o o' : PO) (h : withConfigFileEnv w o = .ok o') :
+    o'.env = o.env ∧ o'.name = o.name ∧ o'.envFiles = o.envFiles ∧ o'.workDir = o.workDir := by
+  unfold withConfigFileEnv at h
+  split at h
+  · cases h; exact ⟨rfl, rfl, rfl, rfl⟩
+  · simp only at h
+    split at h
+    · cases h; exact ⟨rfl, rfl, rfl, rfl⟩
+    · split at h
+      · cases h; exact ⟨rfl, rfl, rfl, rfl⟩
+      · cases h
+
+theorem withDefaultConfigPath_frame (w : World) (o : PO) :
+    (withDefaultConfigPath w o).env = o.env ∧ (withDefaultConfigPath w o).name = o.name ∧
+    (withDefaultConfigPath w o).envFiles = o.envFiles ∧ (withDefaultConfigPath w o).workDir = o.workDir := by
+  unfold withDefaultConfigPath
+  split <;> exact ⟨rfl, rfl, rfl, rfl⟩
+
 theorem withEnvFiles_env (w : World) (o o' : PO) (fs : List Str) (h : withEnvFiles w o fs = .ok o') :
     o'.env = o.env := by
   unfold withEnvFiles at h
@@ -341,6 +359,13 @@ theorem applyOpt_env (w : World) (o o' : PO) (x : Opt) (h : applyOpt w o x = .ok
     simp only [applyOpt] at h
     cases h
     cases b <;> simp [overOf, underStep]
+  | withConfigFileEnv =>
+    simp only [applyOpt] at h
+    simp [overOf, underStep, (withConfigFileEnv_frame w o o' h).1]
+  | withDefaultConfigPath =>
+    simp only [applyOpt] at h
+    cases h
+    simp [overOf, underStep, (withDefaultConfigPath_frame w o).1]
 
 theorem explicitLayer_cons (x : Opt) (xs : List Opt) :
     explicitLayer (x :: xs) = explicitLayer xs ++ overOf x := by
@@ -385,6 +410,8 @@ theorem underOf_noDot (w : World) (pre : List Opt) (o o1 : PO)
       | withEnv l => simp [underStep, osLayer, Env.get, List.contains_cons]
       | withEnvFiles l => simp [underStep, osLayer, Env.get, List.contains_cons]
       | withWorkDir b => simp [underStep, osLayer, Env.get, List.contains_cons]
+      | withConfigFileEnv => simp [underStep, osLayer, Env.get, List.contains_cons]
+      | withDefaultConfigPath => simp [underStep, osLayer, Env.get, List.contains_cons]
     · cases h
 
 theorem runOpts_append (w : World) (a b : List Opt) (o : PO) :
@@ -410,69 +437,6 @@ theorem lookupLayers_two (a b : Env) (k : Str) :
   cases a.get k <;> cases b.get k <;> rfl
 
 
-
-/-! ### env files -/
-
-theorem getEnvFromFile_snoc (w : World) (cur : Env) (fs : List FileRef) (f : FileRef) (acc m : Env)
-    (h : getEnvFromFile w cur (fs ++ [f]) acc = .ok m) :
-    ∃ m0 ls out, getEnvFromFile w cur fs acc = .ok m0 ∧ lookupFile w f = some (.file ls) ∧
-      parseLines (chain cur m0) ls [] = .ok out ∧ m = out ++ m0 := by
-  induction fs generalizing acc with
-  | nil =>
-    simp only [List.nil_append, getEnvFromFile] at h
-    split at h
-    · cases h
-    · cases h
-    · rename_i ls hl
-      split at h
-      · rename_i out ho
-        try simp only [getEnvFromFile] at h
-        cases h
-        exact ⟨acc, ls, out, rfl, hl, ho, rfl⟩
-      · cases h
-  | cons g gs ih =>
-    simp only [List.cons_append, getEnvFromFile] at h ⊢
-    split at h
-    · cases h
-    · cases h
-    · rename_i ls hl
-      split at h
-      · rename_i out ho
-        exact ih _ h
-      · cases h
-
-
-
-theorem lookup_fun_eq (cur envMap out : Env) :
-    lookThen (chain cur envMap) out = lookupLayers [cur, envMap, out] := by
-  funext n
-  simp only [lookThen, chain, lookupLayers]
-  cases cur.get n <;> cases envMap.get n <;> cases out.get n <;> rfl
-
-
-
-/-- a `.env` value is expanded with the variables above it: the project environment so far, then the
-    earlier files, then the earlier lines of the same file -/
-theorem parseLines_cons (cur envMap out : Env) (k t : Str) (ls : List (Str × Str)) :
-    parseLines (chain cur envMap) ((k, t) :: ls) out =
-      match Template.subst (lookupLayers [cur, envMap, out]) t with
-      | .ok v => parseLines (chain cur envMap) ls ((k, v) :: out)
-      | .err _ => .error .dotenvParse
-      | .panic _ => .error .panic := by
-  rw [parseLines, lookup_fun_eq]
-  cases Template.subst (lookupLayers [cur, envMap, out]) t <;> rfl
-
-theorem parseLines_spec (cur e : Env) (ls : List (Str × Str)) (out : Env) :
-    (parseLines (chain cur e) ls out).toOption = (fileLayer cur e ls out).toOption := by
-  induction ls generalizing out with
-  | nil => rfl
-  | cons p ls ih =>
-    obtain ⟨k, t⟩ := p
-    rw [parseLines_cons, fileLayer]
-    cases Template.subst (lookupLayers [cur, e, out]) t with
-    | ok v => exact ih _
-    | err x => rfl
-    | panic x => rfl
 
 theorem decide_name_valid (s : Sources) (n : Str) (h : Spec.decide s = .name n) : validName n = true := by
   unfold Spec.decide at h
@@ -501,11 +465,27 @@ theorem decide_name_valid (s : Sources) (n : Str) (h : Spec.decide s = .name n) 
             · exact h0
           · cases h
 
+theorem load_inv (w : World) (o : PO) (r : Loaded) (h : load w o = .ok r) :
+    ∃ files, o.configs ≠ [] ∧ readConfigs w o.configs = .ok files ∧ loadFiles w o files = .ok r := by
+  unfold load at h
+  split at h
+  · cases h
+  · rename_i c cs hc
+    split at h
+    · cases h
+    · rename_i files hf
+      refine ⟨files, ?_, ?_, h⟩
+      · rw [hc]; exact List.cons_ne_nil _ _
+      · exact hf
+
 theorem run_ok_inv (w : World) (opts : List Opt) (r : Loaded) (h : run w opts = .ok r) :
-    ∃ o, runOpts w opts {} = .ok o ∧ load w o = .ok r := by
+    ∃ o files, runOpts w opts { configs := w.given } = .ok o ∧ o.configs ≠ [] ∧
+      readConfigs w o.configs = .ok files ∧ loadFiles w o files = .ok r := by
   unfold run at h
   split at h
-  · rename_i o ho; exact ⟨o, ho, h⟩
+  · rename_i o ho
+    obtain ⟨files, h1, h2, h3⟩ := load_inv w o r h
+    exact ⟨o, files, ho, h1, h2, h3⟩
   · cases h
 
 theorem runOpts_mem_error (w : World) (opts : List Opt) (o : PO) (x : Opt) (hx : x ∈ opts)
@@ -570,6 +550,13 @@ theorem runOpts_name (w : World) (opts : List Opt) (o o' : PO) (h : runOpts w op
         simp only [applyOpt] at h1
         cases h1
         cases b <;> simp [requestedName]
+      | withConfigFileEnv =>
+        simp only [applyOpt] at h1
+        simp [requestedName, (withConfigFileEnv_frame w o o1 h1).2.1]
+      | withDefaultConfigPath =>
+        simp only [applyOpt] at h1
+        cases h1
+        simp [requestedName, (withDefaultConfigPath_frame w o).2.1]
     · cases h
 
 end CV.Name
